@@ -7,6 +7,7 @@ import Emmet.Driver.Css
 import Emmet.Driver.Extract
 import Emmet.Driver.CssAbbr
 import Emmet.Driver.Style
+import Emmet.Driver.ExpandG
 
 /-- model driver: `driver <mode>` reads one request per line on stdin and answers one line per request -/
 def main (args : List String) : IO UInt32 := do
@@ -20,4 +21,5 @@ def main (args : List String) : IO UInt32 := do
   | ["extract"] => Drv.Extract.main; return 0
   | ["cssabbr"] => Drv.CssAbbr.main; return 0
   | ["style"] => Drv.Style.main; return 0
+  | ["expandg"] => Drv.ExpandG.main; return 0
   | _ => IO.eprintln "usage: driver <mode>"; return 2
